@@ -68,6 +68,10 @@ def main():
             if os.path.exists(os.path.join(a, 'patch.diff')):
                 jobs.append((os.path.basename(a.rstrip('/')),
                              os.path.join(a, 'patch.diff')))
+            elif glob.glob(os.path.join(a, '*', 'patch.diff')):
+                for f in sorted(glob.glob(os.path.join(a, '*',
+                                                       'patch.diff'))):
+                    jobs.append((os.path.basename(os.path.dirname(f)), f))
             else:
                 for f in sorted(glob.glob(os.path.join(a, '*.diff'))):
                     jobs.append((os.path.basename(a.rstrip('/')) + '/' +
